@@ -201,7 +201,20 @@ impl<'g> FnCx<'g> {
             syn::Stmt::Item(syn::Item::Fn(_)) | syn::Stmt::Item(syn::Item::Use(_)) => self.stmts(rest, k),
             syn::Stmt::Item(_) => unsupported("item in a block", first.span()),
             syn::Stmt::Local(l) => {
+                fn has_infer(t: &syn::Type) -> bool {
+                    struct V(bool);
+                    impl<'ast> syn::visit::Visit<'ast> for V {
+                        fn visit_type_infer(&mut self, _i: &'ast syn::TypeInfer) {
+                            self.0 = true;
+                        }
+                    }
+                    let mut v = V(false);
+                    syn::visit::Visit::visit_type(&mut v, t);
+                    v.0
+                }
                 let declared_ty = match &l.pat {
+                    // `Vec<_>` and the like: left to inference
+                    syn::Pat::Type(pt) if has_infer(&pt.ty) => None,
                     syn::Pat::Type(pt) => Some(rust_ty(&pt.ty)?),
                     _ => None,
                 };
@@ -230,6 +243,14 @@ impl<'g> FnCx<'g> {
                             return unsupported("let-else", l.span());
                         }
                         let e = &*init.expr;
+                        // `let view = bytes.view_bits_mut::<Lsb0>();` introduces an alias, not a value
+                        if let (syn::Expr::MethodCall(mc), syn::Pat::Ident(pi)) = (strip_paren(e), pat) {
+                            if mc.method == "view_bits_mut" {
+                                let (tname, _) = self.assign_target(&mc.receiver)?;
+                                self.bit_views.insert(pi.ident.to_string(), tname);
+                                return self.stmts(rest, k);
+                            }
+                        }
                         if matches!(strip_paren(e), syn::Expr::If(_) | syn::Expr::Match(_) | syn::Expr::Block(_)) && !has_escape(e) {
                             let v = self.value_join(e, declared_ty.as_ref())?;
                             let mut steps = v.steps.clone();
@@ -288,7 +309,11 @@ impl<'g> FnCx<'g> {
                 if m.tokens.is_empty() {
                     Ok(syn::parse_quote!(Vec::new()))
                 } else {
-                    unsupported("non-empty vec!", m.span())
+                    let elems = m
+                        .parse_body_with(syn::punctuated::Punctuated::<syn::Expr, syn::Token![,]>::parse_terminated)
+                        .map_err(|e| format!("unsupported: vec! body: {}", e))?;
+                    let elems: Vec<syn::Expr> = elems.into_iter().collect();
+                    Ok(syn::parse_quote!(__rs2lean_vec(#(#elems),*)))
                 }
             }
             "panic" | "unreachable" => Ok(syn::parse_quote!(__rs2lean_panic())),
@@ -666,7 +691,7 @@ impl<'g> FnCx<'g> {
         let continue_text = if is_for {
             format!("{}{}{}{} rest_{}", loop_name, ga, fuel_arg, cap_args, st_args)
         } else {
-            format!("{}{} fuel{}{}", loop_name, ga, cap_args, st_args)
+            format!("{}{}{} fuel{}", loop_name, ga, cap_args, st_args)
         };
         let break_text = if has_ret { format!(".ok (.done {})", st_tuple) } else { format!(".ok {}", st_tuple) };
         // ---- the loop function
